@@ -71,6 +71,9 @@ func c16Gen(r *rand.Rand, tier string) []Case {
 	out = append(out, Case{"freset", "fork # k=1 m=delegate val=1 amt=3000000000000000000", "fork # k=2 m=delegate val=0 amt=1000000000000000000", "query # k=1 val=1",
 		"jail # val=1", "query # k=1 val=1", "query # k=2 val=0", "fork # k=1 m=undelegate val=1 amt=staked/2", "adv # dt=30000", "query # k=1 val=1",
 		"fork # k=1 m=redelegate val=1 dst=0 amt=staked/2", "query # k=1 val=1"})
+	// fixed case: a validator's commission, withdrawn by its operator — a sizeable one, then one below a base unit
+	out = append(out, Case{"freset", "commission # val=0 reward=1000000000", "fork # k=1 m=withdrawValidatorCommission val=0", "commission # val=1 reward=5", "fork # k=1 m=withdrawValidatorCommission val=1",
+		"fork # k=1 m=withdrawValidatorCommission val=2"})
 	// fixed case: rewards earned at two validators, one of them leaves the bonded set, then everything is claimed at once
 	out = append(out, Case{"freset", "fork # k=1 m=delegate val=1 amt=3000000000000000000", "fork # k=1 m=delegate val=0 amt=1000000000000000000", "adv # dt=30000", "adv # dt=30000",
 		"fork # k=1 m=claimRewards", "adv # dt=30000", "jail # val=1", "fork # k=1 m=claimRewards", "fork # k=2 m=claimRewards"})
@@ -187,6 +190,23 @@ func c16Exec(c Case) (outs []string, fails []Failure, tags []string) {
 				}
 				app.StakingKeeper.BlockValidatorUpdates(env.ctx)
 				out = "ok"
+			case "commission":
+				// the validator charges 10 % commission from now on, and `reward` base units are allocated to it (a tiny reward
+				// leaves a commission below one unit)
+				out = "skip"
+				vaC, e := sdk.ValAddressFromBech32(valAddr(kv["val"]))
+				if e != nil {
+					return
+				}
+				if v, ok := app.StakingKeeper.GetValidator(env.ctx, vaC); ok {
+					v.Commission.Rate = sdk.NewDecWithPrec(1, 1)
+					app.StakingKeeper.SetValidator(env.ctx, v)
+					rw := sdk.NewCoins(sdk.NewCoin(denom, sdkmath.NewIntFromBigInt(mustBig(kv["reward"]))))
+					_ = app.BankKeeper.MintCoins(env.ctx, "coinomics", rw)
+					_ = app.BankKeeper.SendCoinsFromModuleToModule(env.ctx, "coinomics", distrtypes.ModuleName, rw)
+					app.DistrKeeper.AllocateTokensToValidator(env.ctx, v, sdk.NewDecCoinsFromCoins(rw...))
+					tags = append(tags, "commission-accrued")
+				}
 			case "jail":
 				// a validator leaves the bonded set (jailed, then the end-of-block validator update): it still holds its tokens
 				out = "skip"
@@ -307,6 +327,20 @@ func c16Exec(c Case) (outs []string, fails []Failure, tags []string) {
 					in, err = dpc.ABI.Pack(m, eth, w.String())
 					runNative = func(ctx sdk.Context) error {
 						_, e := distrSrv.SetWithdrawAddress(sdk.WrapSDKContext(ctx), msg)
+						return e
+					}
+				case "withdrawValidatorCommission":
+					// the caller is the validator's operator itself (the fork applies the message without a signature)
+					eth = common.BytesToAddress(vaddr.Bytes())
+					// (an operator that sends transactions has an account; the EVM would create one for a sender without)
+					if app.AccountKeeper.GetAccount(env.ctx, sdk.AccAddress(vaddr)) == nil {
+						app.AccountKeeper.SetAccount(env.ctx, app.AccountKeeper.NewAccountWithAddress(env.ctx, sdk.AccAddress(vaddr)))
+					}
+					msg := &distrtypes.MsgWithdrawValidatorCommission{ValidatorAddress: va}
+					native, to = msg, dst
+					in, err = dpc.ABI.Pack(m, va)
+					runNative = func(ctx sdk.Context) error {
+						_, e := distrSrv.WithdrawValidatorCommission(sdk.WrapSDKContext(ctx), msg)
 						return e
 					}
 				case "claimRewards":
